@@ -232,6 +232,11 @@ class Kernel:
             self._check(t)
         return self.seq
 
+    def drain(self):
+        """Block the calling thread until no other simulated thread can run."""
+        me = self.current
+        self.block_until(lambda: not any(self._runnable(th) for th in self.threads if th is not me), "drain")
+
     def kill_proc(self, proc):
         self.dead_procs.add(proc)
 
